@@ -971,7 +971,8 @@ def directed_simpy(ctx, n):
     from usim.py.exceptions import Interrupt
     rng = ctx.rng
     for _ in range(n):
-        kind = rng.choice(['embedded', 'interrupts', 'allof', 'falsy-results', 'stop-at-zero', 'native-activities'])
+        kind = rng.choice(['embedded', 'interrupts', 'allof', 'falsy-results', 'stop-at-zero', 'native-activities',
+                           'chained-trigger', 'condition-snapshot'])
         log = []
         if kind == 'embedded':
             T0, enter, d = rng.choice([0, 0, 4, 9]), rng.choice([0, 3, 4, 7]), rng.choice([1, 2, 5])
@@ -1072,6 +1073,54 @@ def directed_simpy(ctx, n):
             env.process(proc(env))
             w = {'v': ('value', repr(val), d), 'f': ('raised', 'native', d)}
             want = [w[x] for x in (('v', 'f') if order == 'value-first' else ('f', 'v'))] + [('done', 2 * d + 1)]
+            runner = lambda: env.run()   # noqa
+        elif kind == 'chained-trigger':
+            # `head.callbacks.append(tail.trigger)`: the tail takes over the state of the head - its value if it succeeded, its
+            # exception if it FAILED; a process waiting for the tail gets the value / has the exception raised, at that time
+            t, fails = rng.choice([1, 2]), rng.random() < 0.6
+            val = rng.choice([0, None, 'v'])
+            case = {'chained_trigger': dict(at=t, head_fails=fails, value=repr(val))}
+            env = Environment()
+            head, tail = env.event(), env.event()
+            head.callbacks.append(tail.trigger)
+
+            def waiter(env):
+                try:
+                    got = yield tail
+                    log.append(('value', repr(got), env.now))
+                except KeyError as e:
+                    log.append(('raised', e.args[0], env.now))
+                yield env.timeout(1)
+                log.append(('done', env.now))
+
+            def controller(env):
+                yield env.timeout(t)
+                if fails:
+                    head.fail(KeyError('head'))
+                    head.defused = True
+                else:
+                    head.succeed(val)
+            env.process(waiter(env))
+            env.process(controller(env))
+            want = [('raised', 'head', t) if fails else ('value', repr(val), t), ('done', t + 1)]
+            runner = lambda: env.run()   # noqa
+        elif kind == 'condition-snapshot':
+            # AllOf / AnyOf are about the events they were GIVEN: a list that the caller goes on using afterwards (a
+            # bookkeeping list reused for the next batch) does not change what the condition waits for
+            which = rng.choice(['all_of', 'any_of'])
+            d1, d2, d3 = rng.choice([1, 2]), rng.choice([3, 4]), rng.choice([6, 8])
+            case = {'condition_snapshot': dict(kind=which, delays=[d1, d2, d3])}
+            env = Environment()
+
+            def proc(env):
+                batch = [env.timeout(d1, 'a'), env.timeout(d2, 'b')]
+                cond = env.all_of(batch) if which == 'all_of' else env.any_of(batch)
+                batch.clear()
+                batch.append(env.timeout(d3, 'c'))          # the next batch, in the same list
+                res = yield cond
+                log.append((sorted(res.values()), env.now))
+            env.process(proc(env))
+            want = [(['a', 'b'], d2)] if which == 'all_of' else [(['a'], d1)]
             runner = lambda: env.run()   # noqa
         elif kind == 'stop-at-zero':
             # a run that stops at time 0 (an event firing at once) with later timeouts pending: env.now stays at the stop
